@@ -773,7 +773,7 @@ class Interp:
                 return [Result("panic", None, st, "slice index out of range %d..%d of %d" % (lo, hi, len(sl.elems)))]
             self.ret(st, dst, Slice(sl.elems[lo:hi], sl.tag), nxt)
             return None
-        if c.endswith("NonZero::<usize>::get") or c.endswith("NonZero::<u32>::get") or re.match(r"^<NonZero<\w+> as Into<\w+>>::into$", c) or re.match(r"^<NonZero<\w+> as From.*>::from$", c):
+        if c.endswith("NonZero::<usize>::get") or c.endswith("NonZero::<u32>::get") or c.endswith("NonZero::<u64>::get") or re.match(r"^<NonZero<\w+> as Into<\w+>>::into$", c) or re.match(r"^<NonZero<\w+> as From.*>::from$", c):
             self.ret(st, dst, args[0], nxt)
             return None
         m = re.match(r"^NonZero::<(\w+)>::new$", c)
@@ -798,6 +798,11 @@ class Interp:
             # concretise: the result is used as a slice bound
             conc, sym = (a, b) if isinstance(a, int) else (b, a)
             w = sym.w
+            if conc > 70000:
+                # too many values to enumerate (only sizes up to one HCOBS chunk are): keep the minimum symbolic; a later
+                # use as a slice bound is then reported as unsupported instead of looping
+                self.ret(st, dst, Sym("(ite (bvult %s %s) %s %s)" % (sym.term, bvconst(conc, w), sym.term, bvconst(conc, w)), w), nxt)
+                return None
             opts = [("(= %s %s)" % (sym.term, bvconst(k, w)), k) for k in range(conc)]
             opts.append(("(bvuge %s %s)" % (sym.term, bvconst(conc, w)), conc))
             return self.fork_values(st, dst, nxt, opts)
@@ -953,7 +958,22 @@ class Interp:
             self.ret(st, dst, Adt("ConsumingIovec", {"total": total}), nxt)
             return None
         if re.match(r"^<ConsumingIovec(<'_>)? as Deref(Mut)?>::deref(_mut)?$", c):
-            self.ret(st, dst, self.val(st, args[0]), nxt)
+            v = self.val(st, args[0])
+            if isinstance(v, Adt) and isinstance(v.fields, dict) and "iov_ref" in v.fields:
+                v = v.get("iov_ref")      # a reference to the modelled OwningIovec (fields in declaration order)
+            self.ret(st, dst, v, nxt)
+            return None
+        if re.search(r"GlobalDeque::(<'_>::)?logical_size$", c):
+            v = self.val(st, args[0])
+            if not (isinstance(v, Adt) and isinstance(v.fields, dict) and "logical" in v.fields):
+                raise Unsupported("call " + c + " on an unmodelled deque")
+            self.ret(st, dst, v.get("logical"), nxt)
+            return None
+        if re.match(r"^SortedDeque::<.*>::first$", c):
+            v = self.val(st, args[0])
+            if not (isinstance(v, Adt) and isinstance(v.fields, dict) and "first" in v.fields):
+                raise Unsupported("call " + c + " on an unmodelled deque")
+            self.ret(st, dst, v.get("first"), nxt)
             return None
         if re.search(r"OwningIovec::(<'_>::)?total_size$", c):
             self.ret(st, dst, self.val(st, args[0]).get("total"), nxt)
@@ -1052,7 +1072,11 @@ class Interp:
             self.ret(st, dst, self.val(st, args[0]), nxt)
             return None
         if re.match(r"^ConsumingIovec::<'_>::iovec(::<'_>)?$", c):
-            self.ret(st, dst, Ref("g:ciov", (("field", "inner"),)), nxt)
+            v = self.val(st, args[0])
+            if isinstance(v, Adt) and isinstance(v.fields, dict) and "iov_ref" in v.fields:
+                self.ret(st, dst, v.get("iov_ref"), nxt)
+            else:
+                self.ret(st, dst, Ref("g:ciov", (("field", "inner"),)), nxt)
             return None
         if re.search(r"GlobalDeque::(<'_>::)?consume_by_bytes$", c):
             st.events.append(("consume_by_bytes", args[1]))
